@@ -14,7 +14,8 @@ RULE = ("MSSM: on-shell points with tan(beta) in [1,100], |mu|,|M1|,|M2| in [50,
         "[80,1e4], A_mu in [-1e4,1e4]; non-trivial = at least one negative sign among mu, M1, M2, or smuon mixing "
         "angle > 0.1, or a negative signed neutralino eigenvalue. THDM: mass- and gauge-basis points, all six Yukawa "
         "types, non-diagonal Delta/Pi; non-trivial = non-zero off-diagonal muon-row/column coupling or type != II. "
-        "Points rejected by the library are discarded and counted.")
+        "Points rejected by the library are discarded and counted. One MSSM point in four is evaluated on a model object that "
+        "has served another point before (class object-reused).")
 ASSUMPTIONS = [
     "MSSM reference: mass matrices written from the Lagrangian parameters read back from the model after "
     "calculate_masses(); real orthogonal neutralino mixing with signed masses (not the library's convention); "
